@@ -573,6 +573,9 @@ impl DrawState {
         // accurately reflect the number of lines that have been displayed on the terminal, if the
         // full height exceeds the terminal height.
         let mut real_height = VisualLines::default();
+        // Whether the loop below has written any line: a non-empty vector paints nothing when its
+        // first line is a bar line that does not fit the terminal height.
+        let mut painted_any = false;
 
         for (idx, line) in self.lines.iter().enumerate() {
             let line_height = line.wrapped_height(term_width);
@@ -601,6 +604,7 @@ impl DrawState {
             }
 
             term.write_str(line.as_ref())?;
+            painted_any = true;
 
             // An empty first line is padded as well: if the previous draw left the cursor at the
             // right edge (no bar lines were drawn), it would otherwise not get a row of its own.
@@ -620,9 +624,9 @@ impl DrawState {
             // no bar line was drawn below the text lines: there is no padding on the screen
             shift = VisualLines::default();
         }
-        // After a draw without lines the cursor is at the start of the line below the erased (or,
-        // with bottom alignment, padded) region
-        if !self.lines.is_empty() {
+        // After a draw that wrote no line the cursor is at the start of the line below the erased
+        // (or, with bottom alignment, padded) region
+        if painted_any {
             self.cursor_below = false;
         } else if *bar_count != VisualLines::default() {
             self.cursor_below = !full_screen_padding;
